@@ -980,6 +980,26 @@ impl<T: Serialize + for<'de> Deserialize<'de> + Clone + PartialEq + Send + Sync 
             }
         }
 
+        // Records appended behind a torn tail could never be read back: if the live log ends
+        // in an incomplete record, move it aside (it is still replayed as a rotated log) and
+        // continue in a fresh live log.
+        let live_path = self
+            .config
+            .state_dir
+            .join(format!("state.{WAL_EXTENSION}"));
+        let live_log_torn = stats.corruption_events.iter().any(|event| {
+            event.file_path == live_path
+                && event.corruption_type == CorruptionType::IncompleteWrite
+        });
+        if live_log_torn {
+            let mut writer = self.wal_writer.lock().map_err(|_| {
+                P2PError::Storage(StorageError::LockPoisoned(
+                    "mutex lock failed".to_string().into(),
+                ))
+            })?;
+            writer.rotate()?;
+        }
+
         Ok(())
     }
 
